@@ -10,6 +10,7 @@ import (
 	"os"
 	"path/filepath"
 	"strings"
+	"syscall"
 	"time"
 
 	"github.com/Comcast/sheens/core"
@@ -204,6 +205,10 @@ func c19Run(dir string, cs c19Case, timeout time.Duration) (passed bool, errText
 	}
 	s := c19Session(cs, timeout)
 	var err error
+	// a session that fails returns without waiting for its subprocess: over a long run the ended subprocesses pile up
+	// as zombies (tens of thousands of them exhaust the machine's process ids); sessions of a worker run one after
+	// the other, so whatever has ended by now belongs to a session that is over
+	defer reapChildren()
 	if p, pm, where := vh.Trap(func() {
 		// the horizon only bounds a tool that has stopped enforcing its own timeouts
 		ctx, cancel := context.WithTimeout(context.Background(), c19Horizon)
@@ -216,6 +221,16 @@ func c19Run(dir string, cs c19Case, timeout time.Duration) (passed bool, errText
 		return false, err.Error(), ""
 	}
 	return true, "", ""
+}
+
+func reapChildren() {
+	for i := 0; i < 64; i++ {
+		var ws syscall.WaitStatus
+		pid, err := syscall.Wait4(-1, &ws, syscall.WNOHANG, nil)
+		if pid <= 0 || err != nil {
+			return
+		}
+	}
 }
 
 func setSig(set []expOut) string {
